@@ -1533,3 +1533,92 @@ func inv_ProcessFiles(p *Processor) {
 	vs.Invariant("nothing_refused_so_far", gRefused == vs.Old(gRefused))
 	vs.Invariant("processor_intact", p != nil)
 }
+
+// ---------------------------------------------------------------------------
+// C10: the context parameter
+// ---------------------------------------------------------------------------
+
+// Facts about the go/types constructors used to build the context.Context type (trusted).
+//
+//kvc:axiom
+func axiomTypesConstructors() bool {
+	return vs.ForallRef(func(o *types.TypeName) bool {
+		return vs.ForallValue(func(u types.Type) bool {
+			return types.NewNamed(o, u, nil) != nil && types.NewNamed(o, u, nil).Obj() == o
+		})
+	}) && vs.ForallRef(func(p *types.Package) bool {
+		return vs.ForallString(func(n string) bool {
+			return types.NewTypeName(0, p, n, nil) != nil && types.NewTypeName(0, p, n, nil).Pkg() == p && types.NewTypeName(0, p, n, nil).Name() == n
+		})
+	}) && vs.ForallString2(func(path, name string) bool {
+		return types.NewPackage(path, name) != nil && types.NewPackage(path, name).Path() == path
+	})
+}
+
+//kvc:contract collectImportsFromType
+func contract_collectImportsFromType(t types.Type, pkg string, imports map[string]*Import, referencedImports map[string]*Import, varPool *VarPool) {
+	vs.Requires(poolInv(varPool) && imports != nil && referencedImports != nil)
+	vs.Ensures("pool_inv", poolInv(varPool))
+	vs.Ensures("imports_stay_nonnil", allImportTablesStayNonNil())
+	vs.Modifies(imports, referencedImports, varPool.vars)
+	vs.Allocates()
+}
+
+//kvc:contract NewInjectorParamWithImports
+func contract_NewInjectorParamWithImports(ts []types.Type, isArg bool, pkg string, imports map[string]*Import, varPool *VarPool) (result *InjectorParam) {
+	vs.Requires(poolInv(varPool) && imports != nil)
+	vs.Ensures("fresh_unnamed_unreferenced", result != nil && !vs.Old(vs.IsAllocated(result)) && vs.IsAllocated(result) && vs.SameSlice(result.types, ts) && result.isArg == isArg &&
+		result.refCounter == 0 && !result.withChannel && result.name == "" && result.channelName == "" && result.ReferencedImports != nil)
+	vs.Ensures("pool_inv", poolInv(varPool))
+	vs.Ensures("imports_stay_nonnil", allImportTablesStayNonNil())
+	vs.Modifies(imports, varPool.vars)
+	vs.Allocates()
+	return
+}
+
+//kvc:loop NewInjectorParamWithImports "for _, t := range ts"
+func inv_NewInjectorParamWithImports(varPool *VarPool, imports map[string]*Import, referencedImports map[string]*Import) {
+	vs.Invariant("pool_inv", poolInv(varPool))
+	vs.Invariant("maps", imports != nil && referencedImports != nil)
+	vs.Invariant("imports_stay_nonnil", allImportTablesStayNonNil())
+}
+
+// firstCtxArg: index of the first context.Context among the first n arguments (n if none).
+func noCtxBefore(args []*InjectorArgument, n int) bool {
+	return vs.Forall(n, func(j int) bool { return !isContextType(args[j].Type) })
+}
+
+//kvc:contract (*Graph).injectContextArg
+func contract_Graph_injectContextArg(g *Graph, injector *Injector, metaData *MetaData, varPool *VarPool) (err error) {
+	vs.Requires(nodesNonNil(g) && injectorArgsReady(injector) && metaData != nil && metaData.Imports != nil && importsNonNil(metaData.Imports) && poolInv(varPool))
+	vs.Ensures("never_fails", err == nil)
+	// no needed provider is Async: the parameter list is left alone
+	vs.Ensures("untouched_without_async", vs.Implies(!vs.Exists(len(g.nodes), func(i int) bool { return asyncNode(g.nodes[i]) }),
+		vs.SameSlice(injector.Args, vs.Old(injector.Args))))
+	// a needed provider is Async: context.Context is the FIRST parameter ...
+	vs.Ensures("context_first_with_async", vs.Implies(vs.Exists(len(g.nodes), func(i int) bool { return asyncNode(g.nodes[i]) }),
+		len(injector.Args) >= 1 && injector.Args[0] != nil && isContextType(injector.Args[0].Type)))
+	// ... an existing one is moved to the front (the others keep their order, nothing is duplicated or dropped) ...
+	vs.Ensures("existing_context_moved_to_front", vs.Implies(vs.Exists(len(g.nodes), func(i int) bool { return asyncNode(g.nodes[i]) }),
+		vs.ForallInt(func(k int) bool {
+			return vs.Implies(0 <= k && k < len(vs.Old(injector.Args)) && isContextType(vs.Old(injector.Args)[k].Type) && noCtxBefore(vs.Old(injector.Args), k),
+				len(injector.Args) == len(vs.Old(injector.Args)) && injector.Args[0] == vs.Old(injector.Args)[k] &&
+					vs.Forall(k, func(i int) bool { return injector.Args[i+1] == vs.Old(injector.Args)[i] }) &&
+					vs.ForallRange(k+1, len(vs.Old(injector.Args)), func(i int) bool { return injector.Args[i] == vs.Old(injector.Args)[i] }))
+		})))
+	// ... and one is added in front when the declaration has none
+	vs.Ensures("context_added_when_absent", vs.Implies(vs.Exists(len(g.nodes), func(i int) bool { return asyncNode(g.nodes[i]) }) &&
+		noCtxBefore(vs.Old(injector.Args), len(vs.Old(injector.Args))),
+		len(injector.Args) == len(vs.Old(injector.Args))+1 &&
+			vs.Forall(len(vs.Old(injector.Args)), func(i int) bool { return injector.Args[i+1] == vs.Old(injector.Args)[i] })))
+	vs.Ensures("pool_inv", poolInv(varPool))
+	vs.Modifies(injector.Args, injector.Params, vs.FieldOfAll(injector.Args[0].Param.refCounter), vs.FieldOfAll(injector.Args[0].Param.withChannel),
+		vs.FieldOfAll(metaData.Imports[""].IsUsed), metaData.Imports, varPool.vars)
+	vs.Allocates()
+	return
+}
+
+//kvc:loop (*Graph).injectContextArg "for i, arg := range injector.Args"
+func inv_injectContextArg(injector *Injector, existingContextArg *InjectorArgument, existingContextIdx int, kvcIdx int) {
+	vs.Invariant("no_ctx_so_far", existingContextArg == nil && existingContextIdx == -1 && noCtxBefore(injector.Args, kvcIdx))
+}
